@@ -635,7 +635,25 @@ func (d *c17Daemon) targetFace(r *rand.Rand) *c17Face {
 // traffic: a small and a maximum-size packet, with and without PIT token, are sent on the face;
 // frames or a clean drop are both fine, a dead process is not (the orchestrator sees that), and
 // the daemon must still answer afterwards.
+// settle waits until the face's send goroutine has gone quiet and returns the frames recorded meanwhile.
+func (f *c17Face) settle() [][]byte {
+	var all [][]byte
+	quiet := 0
+	for i := 0; i < 400 && quiet < 8; i++ {
+		fr := f.tr.TakeFrames()
+		if len(fr) > 0 {
+			all = append(all, fr...)
+			quiet = 0
+		} else {
+			quiet++
+		}
+		time.Sleep(time.Millisecond)
+	}
+	return all
+}
+
 func (d *c17Daemon) traffic(id string, f *c17Face) bool {
+	f.settle() // frames of earlier traffic (sent under an earlier MTU) are not this step's subject
 	for _, size := range []int{1, 8700} {
 		_, wire, err := makeData(enc.Name{enc.NewStringComponent(8, "t")}, nil, bytes.Repeat([]byte{7}, size))
 		if err != nil {
@@ -650,9 +668,8 @@ func (d *c17Daemon) traffic(id string, f *c17Face) bool {
 			f.ls.SendPacket(dispatch.OutPkt{Pkt: &defn.Pkt{Raw: append([]byte{}, wire...), L3: p, IncomingFaceID: &inFace}, PitToken: tok, InFace: &inFace})
 		}
 	}
-	time.Sleep(5 * time.Millisecond)
 	mtu := f.ls.MTU()
-	for _, fr := range f.tr.TakeFrames() {
+	for _, fr := range f.settle() {
 		if len(fr) > mtu {
 			d.fail("C17:frame-exceeds-configured-mtu", id, fmt.Sprintf("after faces/update a frame of %d bytes was sent on a face whose MTU is %d", len(fr), mtu), nil)
 			return false
